@@ -200,7 +200,7 @@ class C03(core.Check):
                                                              'source': case['runs'][0]['files']['p.asm'][:600]}, buckets=tags)]
         vs = []
         fp = (o.get('probes') or {}).get('files')
-        if fp is not None and not o.get('from_cli'):
+        if fp is not None:
             w = [x for x in fp['writes'] if x == 'out.bin']
             if len(w) != 1:
                 vs.append(core.violated('output-opened-%d-times' % len(w), {'writes': fp['writes']}))
